@@ -999,7 +999,7 @@ func (c *FnCtx) finishContractOld(p *Path, fc *FuncContract, fn *ssa.Function, r
 		q := p.clone()
 		mk(q, fc.EnsuresP)
 		pv := c.symbolic(q, "panicval", types.NewInterfaceType(nil, nil))
-		q.assume(fmt.Sprintf("(not (= %s 0))", pv.T))
+		// the value may be nil: panic(nil) (modules below go 1.21) and runtime.Goexit both unwind with recover() == nil
 		q.panicked = true
 		q.panicVal = &pv
 		outs = append(outs, outcome{p: q, panic: true})
